@@ -98,6 +98,8 @@ pub struct SessionSpec {
     pub shard_reply_exists: bool,
     /// global-dedup shards are handed out HMAC-keyed and without file records, as the server does
     pub global_keyed_seed: Option<u64>,
+    /// a dry-run session over the same files and shard cache runs first (as `hf upload --dry-run` then the real upload)
+    pub dry_run_first: bool,
 }
 
 pub struct FileOutcome {
@@ -173,6 +175,51 @@ pub fn make_config_alias(d: &Dirs, cache_idx: usize, alias: Option<usize>, salt:
         },
         repo_info: None,
     })
+}
+
+/// A dry-run session (FileUploadSession::dry_run: nothing is sent to the store, no shard may reach the shard cache)
+/// over the same shard cache, cleaning `files`.  Returns Err(text) if it could not be run / failed.
+pub fn run_dry_session(d: &Dirs, spec: &SessionSpec) -> Result<(), String> {
+    let rt = tokio::runtime::Builder::new_multi_thread().worker_threads(2).enable_all().build().expect("runtime");
+    let base = make_config_alias(d, spec.cache_idx, spec.cache_alias, spec.salt, false);
+    let config = Arc::new(TranslatorConfig {
+        data_config: DataConfig {
+            // a server endpoint that is never contacted: in dry-run mode the remote client sends nothing
+            endpoint: Endpoint::Server("http://127.0.0.1:9".into()),
+            compression: None,
+            auth: None,
+            prefix: "default".into(),
+            cache_config: CacheConfig {
+                cache_directory: d.root.join("chunk-cache-dry"),
+                cache_size: 0,
+            },
+            staging_directory: None,
+        },
+        shard_config: ShardConfig {
+            prefix: base.shard_config.prefix.clone(),
+            cache_directory: base.shard_config.cache_directory.clone(),
+            session_directory: d.root.join("dry-session"),
+            global_dedup_policy: GlobalDedupPolicy::Never,
+            repo_salt: spec.salt,
+        },
+        repo_info: None,
+    });
+    let _ = std::fs::create_dir_all(d.root.join("dry-session"));
+    let files = spec.files.clone();
+    let r = rt.block_on(async move {
+        let tp = ThreadPool::from_current_runtime();
+        let session = FileUploadSession::dry_run(config, tp, None).await.map_err(|e| format!("dry_run: {e}"))?;
+        for f in files {
+            let mut cleaner = session.start_clean(format!("dry{}", f.gidx));
+            cleaner.add_data(&f.bytes[..]).await.map_err(|e| format!("dry add_data: {e}"))?;
+            cleaner.finish().await.map_err(|e| format!("dry finish: {e}"))?;
+        }
+        session.finalize().await.map_err(|e| format!("dry finalize: {e}"))?;
+        Ok::<(), String>(())
+    });
+    rt.shutdown_timeout(std::time::Duration::from_secs(5));
+    let _ = std::fs::remove_dir_all(d.root.join("dry-session"));
+    r
 }
 
 /// Run one upload session on a fresh runtime with `workers` worker threads.
@@ -1048,6 +1095,7 @@ pub fn gen_history(rng: &mut Rng, l: &Limits, o: &GenOpts) -> Vec<SessionSpec> {
             cache_alias: if !fresh && si > 0 && rng.chance(if o.alias_bias { 3 } else { 1 }, 4) { Some(si) } else { None },
             shard_reply_exists: rng.chance(1, 5),
             global_keyed_seed: if fresh && rng.chance(2, 3) { Some(rng.next_u64()) } else { None },
+            dry_run_first: !fresh && rng.chance(1, 8),
         });
     }
     sessions
@@ -1055,7 +1103,7 @@ pub fn gen_history(rng: &mut Rng, l: &Limits, o: &GenOpts) -> Vec<SessionSpec> {
 
 pub fn session_json(s: &SessionSpec) -> Value {
     json!({
-        "workers": s.workers, "concurrent": s.concurrent, "own_manager_instance_via_alias_path": s.cache_alias.is_some(), "global_dedup_fresh_cache": s.fresh_cache_global_dedup, "delays": s.delay_seed.is_some(), "shard_upload_reply_exists": s.shard_reply_exists, "global_dedup_shards_keyed": s.global_keyed_seed.is_some(),
+        "workers": s.workers, "concurrent": s.concurrent, "own_manager_instance_via_alias_path": s.cache_alias.is_some(), "global_dedup_fresh_cache": s.fresh_cache_global_dedup, "delays": s.delay_seed.is_some(), "shard_upload_reply_exists": s.shard_reply_exists, "global_dedup_shards_keyed": s.global_keyed_seed.is_some(), "dry_run_session_first": s.dry_run_first,
         "salt_zero": s.salt == [0u8; 32],
         "files": s.files.iter().map(|f| json!({"len": f.bytes.len(), "cut_kind": f.cut_kind, "recipe": f.recipe.iter().map(|x| x.to_json()).collect::<Vec<_>>()})).collect::<Vec<_>>()
     })
@@ -1129,6 +1177,25 @@ pub fn run(args: &Args, rep: &mut Report) {
             total_sessions += 1;
             if std::env::var("XV_DUMP_SPECS").is_ok() {
                 eprintln!("SPEC case {k} session {si}: {}", session_json(spec));
+            }
+            if spec.dry_run_first {
+                let cache_dir = d.cache_via(spec.cache_idx, spec.cache_alias);
+                let list = |p: &std::path::Path| -> usize { std::fs::read_dir(p).map(|r| r.flatten().filter(|e| e.file_name().to_string_lossy().ends_with(".mdb")).count()).unwrap_or(0) };
+                let before = list(&cache_dir);
+                match run_dry_session(&d, spec) {
+                    Ok(()) => {
+                        rep.count("C16", "dry_run_sessions_before_a_real_one", 1);
+                        if list(&cache_dir) != before {
+                            rep.count("C16", "observed_dry_run_sessions_that_changed_the_shard_cache", 1);
+                        }
+                    },
+                    Err(e) => {
+                        rep.count("C16", "dry_run_sessions_failed", 1);
+                        if rep.p("C16").inconclusive_notes.len() < 3 {
+                            rep.p("C16").inconclusive_notes.push(format!("dry-run session failed: {e}"));
+                        }
+                    },
+                }
             }
             let _ = xvcommon::take_panic_log();
             if alias_sleep_ms > 0 && spec.cache_alias.is_some() {
